@@ -52,3 +52,4 @@ pub mod tx;
 pub mod tx_ext;
 pub mod crypto;
 pub mod validtx;
+pub mod tx_extra;
